@@ -203,11 +203,12 @@ def check_states(res, rng, count):
     for _ in range(count):
         cfg = gen.gen_config(
             rng, customs=('greek', 'holdem8', 'plo8', 'courchevel',
-                          'badugi1', 'kuhn', 'stud5', 'razzdraw'),
+                          'badugi1', 'kuhn', 'stud5', 'razzdraw',
+                          'boarddraw', 'boarddraw', 'random'),
             p_custom=0.4, max_boards=2, strict_p=1.0,
             auto_styles=('typical',), hostile_chips=False)
         pol = driver.gen_policy(rng)
-        pol['policy'] = 'passive'
+        pol['policy'] = rng.choice(['passive', 'passive', 'drawheavy'])
 
         class Probe(driver.Monitor):
             def on_decision(self, ctx, s, avail):
@@ -233,8 +234,13 @@ def check_states(res, rng, count):
                                     f'get_hand({i},{b},{t}) = {got!r} '
                                     f'(strength {gs}), oracle {exp} for '
                                     f'hole {hole} board {board} ({name})')
-                            up = list(s.get_up_cards(i))
+                            up = [c for c, u in zip(
+                                s.hole_cards[i], s.hole_card_statuses[i])
+                                if u]
                             gotu = s.get_up_hand(i, b, t)
+                            if not s.hole_cards[i] and board:
+                                res.counters['cardless_hands_on_a_board'] \
+                                    += 1
                             if name == 'GreekHoldemHand' and len(up) != 2:
                                 continue
                             expu = hr.best_strength(name, up, board) \
